@@ -5,7 +5,7 @@ import dataclasses
 import types
 from typing import Any, Iterable, Union, get_type_hints, TYPE_CHECKING
 from dataclasses import dataclass, field
-from sigma.conditions import ConditionOR
+from sigma.conditions import ConditionAND, ConditionOR
 from sigma.correlations import SigmaCorrelationCondition, SigmaCorrelationRule
 from sigma.rule import SigmaRule, SigmaDetection, SigmaDetectionItem
 from sigma.exceptions import (
@@ -319,7 +319,9 @@ class FieldMappingTransformationBase(DetectionItemTransformation):
                         dataclasses.replace(detection_item, field=field, auto_modifiers=False)
                         for field in mapping
                     ],
-                    item_linking=ConditionOR,
+                    # The item matches if any of the mapped fields matches. A negated item
+                    # (e.g. neq modifier) must match none of them: not (a or b) = not a and not b
+                    item_linking=ConditionAND if detection_item.negated else ConditionOR,
                 )
         if field_match or fieldref_match:  # field name was changed or field reference was mapped
             if self._pipeline is not None and mapping is not None:
